@@ -2,7 +2,7 @@
     impls call the crate's translated bitfield codec; for field values that satisfy the bitfield invariant (what
     every constructor and operation of the crate returns: GenPropsBits) they are the model's container codec. *)
 From SSZ Require Import Base RustSem Offsets Encoder Builder Bitfield BitfieldFacts BitfieldOps BitfieldOpsFacts Types Codec CodecUnfold
-     BaseFacts OffsetsFacts AppendFacts MetaFacts
+     BaseFacts OffsetsFacts AppendFacts MetaFacts ListDecFacts BuilderFacts Canon
      Generated GenEquiv GenEquivBits GenEquivDec GenEquivEnc GenProps GeneratedDerive GenEquivDerive GenEquivDerive2 GenEquivTuple GenEquivDerive4.
 From Coq Require Import ZArith ZifyN ZifyBool ZifyNat Lia.
 Open Scope N_scope.
@@ -130,3 +130,106 @@ Print Assumptions derive_BitsV_ssz_append.
 Print Assumptions derive_BitsV_ssz_bytes_len.
 Print Assumptions derive_BitsL_metadata.
 Print Assumptions derive_BitsL_ssz_append.
+
+(** ** decoding a container with a [BitList] field.  The crate computes [bytes.len() * 8] on the field's slice, so
+    the statement is for inputs below 2^61 bytes; every item the builder hands out is a slice of the input. *)
+Definition small (s : bytes) : Prop := wfb s /\ 8 * len s <= usize_max.
+
+Lemma small_slice_closed : slice_closed small.
+Proof.
+  intros bs a b [Hw Hl]. split.
+  - apply wfb_take, wfb_drop. exact Hw.
+  - assert (H : len (take a (drop b bs)) <= len bs).
+    { unfold len, take, drop. rewrite firstn_length, skipn_length. lia. }
+    lia.
+Qed.
+
+Lemma builder_items_small regs bs items :
+  small bs -> builder_build regs bs = Ok items -> Forall small items.
+Proof.
+  intros Hs Hb. assert (Hp : wfb bs /\ len bs <= usize_max) by (destruct Hs; split; [assumption|lia]).
+  apply (builder_build_tiles _ _ _ (proj1 Hp) (proj2 Hp)) in Hb as HT.
+  destruct HT as (Hsl & Hfix & Hfit & Hbs). cbv zeta in Hbs.
+  pose proof (sc_asm small _ _ small_slice_closed ltac:(rewrite <- Hbs; exact Hs)) as Hq.
+  rewrite Forall_forall in *. intros s Hin0.
+  assert (In s (map snd (combine (map fst regs) items))) as Hin.
+  { rewrite map_snd_combine'; [exact Hin0|]. rewrite map_length. lia. }
+  apply in_map_iff in Hin as (p & <- & Hpin). now apply Hq.
+Qed.
+
+(** three registrations and the build, as one step against the model's [builder_build] *)
+Lemma gen_build3 bs f1 l1 f2 l2 f3 l3 :
+  omap Gen.SszDecoder_items
+    (do s1 <- Gen.builder_register_type f1 l1 {| Gen.SszDecoderBuilder_bytes := bs; Gen.SszDecoderBuilder_items := []; Gen.SszDecoderBuilder_offsets := []; Gen.SszDecoderBuilder_items_index := 0 |};
+     do s2 <- Gen.builder_register_type f2 l2 s1;
+     do s3 <- Gen.builder_register_type f3 l3 s2;
+     Gen.builder_build s3)
+  = builder_build [(f1, l1); (f2, l2); (f3, l3)] bs.
+Proof.
+  unfold builder_build. cbn [register_all].
+  set (s0 := {| Gen.SszDecoderBuilder_bytes := bs; Gen.SszDecoderBuilder_items := []; Gen.SszDecoderBuilder_offsets := []; Gen.SszDecoderBuilder_items_index := 0 |}).
+  change builder_new with (st_abs s0).
+  replace bs with (Gen.SszDecoderBuilder_bytes s0) by reflexivity.
+  reg_step2 s0 f1 l1. rewrite <- Es, <- Eb.
+  reg_step2 s f2 l2. rewrite <- Es0, <- Eb0.
+  reg_step2 s1 f3 l3. rewrite <- Es1, <- Eb1.
+  pose proof (gen_builder_build_eq s2) as Ebuild.
+  destruct (Gen.builder_build s2) as [[its]| |]; destruct (finalize (Gen.SszDecoderBuilder_bytes s2) (st_abs s2)) as [items| |];
+    cbn [omap bind Gen.SszDecoder_items] in *; try discriminate; try reflexivity.
+  congruence.
+Qed.
+
+Lemma gen_decode_next_cons {A} (D : bytes -> outcome A) s r :
+  Gen.decoder_decode_next D {| Gen.SszDecoder_items := s :: r |}
+  = do a <- D s; Ok (a, {| Gen.SszDecoder_items := r |}).
+Proof.
+  unfold Gen.decoder_decode_next, Gen.decoder_decode_next_with, vec_remove.
+  cbn [Gen.SszDecoder_items N.to_nat nth_error firstn skipn app bind fst snd Gen.set_SszDecoder_items].
+  destruct (D s); reflexivity.
+Qed.
+
+Theorem derive_BitsL_from_ssz_bytes bs :
+  small bs -> omap v_BitsL (GenD.BitsL_from_ssz_bytes bs) = dec T_BitsL bs.
+Proof.
+  intro Hs. unfold GenD.BitsL_from_ssz_bytes.
+  change GenD.BitsL_dec_is_ssz_fixed_len with (Ok false : outcome bool).
+  change (Gen.bitvector_dec_is_ssz_fixed_len 9) with (Ok true : outcome bool).
+  change (Gen.bitvector_dec_ssz_fixed_len 9) with (Ok 2 : outcome N).
+  change (Gen.bitlist_dec_is_ssz_fixed_len 16) with (Ok false : outcome bool). leaf_meta.
+  cbn [bind]. unfold Gen.builder_new. cbn [bind].
+  unfold T_BitsL. rewrite dec_container.
+  change (true && forallb d_is_fixed [TBitVector 9; TBitList 16; TUint 1]) with false. cbv iota.
+  change (regs_of [TBitVector 9; TBitList 16; TUint 1]) with [(true, 2); (false, 4); (true, 1)].
+  pose proof (gen_build3 bs true 2 false 4 true 1) as G.
+  set (s0 := {| Gen.SszDecoderBuilder_bytes := bs; Gen.SszDecoderBuilder_items := []; Gen.SszDecoderBuilder_offsets := []; Gen.SszDecoderBuilder_items_index := 0 |}) in *.
+  destruct (Gen.builder_register_type true 2 s0) as [s1| |]; cbn [bind] in *;
+    [| destruct (builder_build _ bs); cbn [omap] in G; try discriminate; reflexivity
+     | destruct (builder_build _ bs); cbn [omap] in G; try discriminate; reflexivity].
+  destruct (Gen.builder_register_type false 4 s1) as [s2| |]; cbn [bind] in *;
+    [| destruct (builder_build _ bs); cbn [omap] in G; try discriminate; reflexivity
+     | destruct (builder_build _ bs); cbn [omap] in G; try discriminate; reflexivity].
+  destruct (Gen.builder_register_type true 1 s2) as [s3| |]; cbn [bind] in *;
+    [| destruct (builder_build _ bs); cbn [omap] in G; try discriminate; reflexivity
+     | destruct (builder_build _ bs); cbn [omap] in G; try discriminate; reflexivity].
+  destruct (Gen.builder_build s3) as [[its]| |]; cbn [bind omap Gen.SszDecoder_items] in *;
+    [| destruct (builder_build _ bs); try discriminate; reflexivity
+     | destruct (builder_build _ bs); try discriminate; reflexivity].
+  destruct (builder_build [(true, 2); (false, 4); (true, 1)] bs) as [items| |] eqn:EB; try discriminate.
+  injection G as ->. cbn [bind].
+  pose proof (builder_build_length _ _ _ EB) as HL. pose proof (builder_items_small _ _ _ Hs EB) as HS.
+  destruct items as [|i1 [|i2 [|i3 [|i4 r]]]]; cbn [length] in HL; try discriminate.
+  inversion HS as [|? ? H1 HS1]; subst. inversion HS1 as [|? ? H2 HS2]; subst. clear HS HS1 HS2.
+  rewrite !gen_decode_next_cons. cbn [map decode_all decode_next].
+  change (dec (TBitVector 9) i1) with (omap (fun b => VBits (bf_iter b)) (bv_from_bytes 9 i1)).
+  rewrite <- (gen_bitvector_from_ssz_bytes_eq 9 i1).
+  destruct (Gen.bitvector_from_ssz_bytes 9 i1) as [a| |]; cbn [bind omap fst snd]; try reflexivity.
+  rewrite gen_decode_next_cons. cbn [decode_next].
+  change (dec (TBitList 16) i2) with (omap (fun b => VBits (bf_iter b)) (bl_from_bytes 16 i2)).
+  rewrite <- (gen_bitlist_from_ssz_bytes_eq 16 i2 (proj1 H2) (proj2 H2)).
+  destruct (Gen.bitlist_from_ssz_bytes 16 i2) as [b| |]; cbn [bind omap fst snd]; try reflexivity.
+  rewrite gen_decode_next_cons. cbn [decode_next].
+  rewrite <- (gen_u8_from_ssz_bytes_eq i3).
+  destruct (Gen.u8_from_ssz_bytes i3) as [c| |]; reflexivity.
+Qed.
+
+Print Assumptions derive_BitsL_from_ssz_bytes.
